@@ -55,4 +55,9 @@ CHECKS = {
     design_ref='DESIGN.md section 2, C11',
     note='Schemas come from the feature model of gen/sdl.py; weak (untypeable-path) dependencies are rare in it - the ordering function itself is covered exhaustively by C20.',
     technique='metamorphic property-based testing: permutations of SDL documents must yield equal schemas'),
+ 'C10': dict(
+    text='Chains of 2-5 schemas (S1 from the feature model, each next one by 1-3 of 28 edit kinds incl. renames, re-parenting with positional base insertion, retyping, computed<->stored, base drops; optionally a final empty schema). Every accepted step is followed by a comparison of the evolved schema with the schema built directly from Si (apply_sdl on the standard library) under the independent semantic dump (every step) and the maintainers diff (last step); after the final migration to the empty schema no user object may remain.',
+    design_ref='DESIGN.md section 2, C10',
+    note='Same trusted base and exclusions as C02; the root causes recorded for C02 are also known findings here because chains reach them.',
+    technique='property-based testing: path independence of generated migration chains (step-by-step vs direct), differential with two comparators'),
 }
